@@ -8,6 +8,8 @@ verus! {
 //@ item actors/miner/src/partition_state.rs PowerPair
 //@ item actors/miner/src/partition_state.rs Partition
 //@ item actors/miner/src/quantize.rs QuantSpec attr="#[derive(Clone, Copy)]"
+//@ item actors/miner/src/expiration_queue.rs ExpirationSet
+//@ const actors/miner/src/quantize.rs NO_QUANTIZATION
 //@ include prelude/miner_partition_assumed.rs
 //@ include units/shared/power_pair.inc
 
@@ -189,6 +191,90 @@ pub open spec fn act_qa(p: Partition) -> int { p.live_power.qa@ - p.faulty_power
             assert(old(self).recoveries@.difference(retracted_recoveries@) =~= old(self).recoveries@.difference(sector_numbers@));
             if retracted_recoveries@ =~= vstd::set::Set::<u64>::empty() { assert(old(self).recoveries@.difference(sector_numbers@) =~= old(self).recoveries@); }
         }
+//@ end
+
+// ======================= growth and shrinkage of the partition: sectors in, sectors out =======================
+//@ fn actors/miner/src/partition_state.rs Partition::record_early_termination
+    ensures
+        // only the early-termination queue root moves
+        final(self).sectors == old(self).sectors, final(self).unproven == old(self).unproven, final(self).faults == old(self).faults,
+        final(self).recoveries == old(self).recoveries, final(self).terminated == old(self).terminated,
+        final(self).expirations_epochs == old(self).expirations_epochs,
+        final(self).live_power == old(self).live_power, final(self).unproven_power == old(self).unproven_power,
+        final(self).faulty_power == old(self).faulty_power, final(self).recovering_power == old(self).recovering_power,
+//@ end
+
+//@ fn actors/miner/src/partition_state.rs Partition::add_sectors ret=res
+    ensures
+        res.is_ok() ==> ({
+            let (power, fee) = res->Ok_0;
+            // "a sector contributes no power before a PoSt has covered it": sectors added unproven change live and unproven power by the same
+            // amount, so the partition's ACTIVE power is unchanged; only sectors added as proven raise it, by exactly the returned power
+            &&& act_raw(*final(self)) - act_raw(*old(self)) == (if proven { power.raw@ } else { 0 })
+            &&& act_qa(*final(self)) - act_qa(*old(self)) == (if proven { power.qa@ } else { 0 })
+            &&& final(self).live_power.raw@ == old(self).live_power.raw@ + power.raw@ && final(self).live_power.qa@ == old(self).live_power.qa@ + power.qa@
+            // the added sector numbers are all new, and appear in `unproven` exactly when added unproven
+            &&& old(self).sectors@.subset_of(final(self).sectors@)
+            &&& final(self).sectors@.difference(old(self).sectors@).disjoint(old(self).sectors@)
+            &&& final(self).unproven@ =~= (if proven { old(self).unproven@ } else { old(self).unproven@.union(final(self).sectors@.difference(old(self).sectors@)) })
+            &&& final(self).faults == old(self).faults && final(self).recoveries == old(self).recoveries && final(self).terminated == old(self).terminated
+            &&& final(self).faulty_power == old(self).faulty_power && final(self).recovering_power == old(self).recovering_power
+            &&& bf_nested(*final(self)) && power_ok(*final(self))
+        }),
+//@ end
+
+//@ fn actors/miner/src/partition_state.rs Partition::replace_sectors ret=res
+    ensures
+        res.is_ok() ==> ({
+            let (power_delta, pledge_delta, fee_delta) = res->Ok_0;
+            // only ACTIVE (live, non-faulty, proven) sectors are replaced; live power moves by exactly the returned delta and so does active power
+            &&& old(self).sectors@.difference(final(self).sectors@).subset_of(
+                    old(self).sectors@.difference(old(self).terminated@).difference(old(self).faults@).difference(old(self).unproven@))
+            &&& final(self).live_power.raw@ == old(self).live_power.raw@ + power_delta.raw@ && final(self).live_power.qa@ == old(self).live_power.qa@ + power_delta.qa@
+            &&& act_raw(*final(self)) - act_raw(*old(self)) == power_delta.raw@ && act_qa(*final(self)) - act_qa(*old(self)) == power_delta.qa@
+            &&& final(self).faults == old(self).faults && final(self).recoveries == old(self).recoveries && final(self).terminated == old(self).terminated
+            &&& final(self).unproven == old(self).unproven
+            &&& bf_nested(*final(self)) && power_ok(*final(self))
+        }),
+//@ end
+
+//@ fn actors/miner/src/partition_state.rs Partition::pop_expired_sectors ret=res
+    ensures
+        res.is_ok() ==> ({
+            let popped = res->Ok_0;
+            let expired = popped.on_time_sectors@.union(popped.early_sectors@);
+            // expiry happens only after proofs were handled; expired sectors become terminated, leave the fault set, and their power leaves the memos:
+            // active power drops by exactly the popped active power
+            &&& old(self).unproven@ =~= vstd::set::Set::<u64>::empty() && old(self).recoveries@ =~= vstd::set::Set::<u64>::empty()
+            &&& old(self).terminated@.disjoint(expired)
+            &&& final(self).terminated@ =~= old(self).terminated@.union(expired)
+            &&& final(self).faults@ =~= old(self).faults@.difference(expired)
+            &&& final(self).live_power.raw@ == old(self).live_power.raw@ - popped.active_power.raw@ - popped.faulty_power.raw@
+            &&& final(self).live_power.qa@ == old(self).live_power.qa@ - popped.active_power.qa@ - popped.faulty_power.qa@
+            &&& final(self).faulty_power.raw@ == old(self).faulty_power.raw@ - popped.faulty_power.raw@
+            &&& final(self).faulty_power.qa@ == old(self).faulty_power.qa@ - popped.faulty_power.qa@
+            &&& act_raw(*final(self)) - act_raw(*old(self)) == -popped.active_power.raw@ && act_qa(*final(self)) - act_qa(*old(self)) == -popped.active_power.qa@
+            &&& final(self).sectors == old(self).sectors && final(self).unproven == old(self).unproven && final(self).recoveries == old(self).recoveries
+            &&& bf_nested(*final(self)) && power_ok(*final(self))
+        }),
+//@ end
+
+//@ fn actors/miner/src/partition_state.rs Partition::terminate_sectors ret=res
+    ensures
+        res.is_ok() ==> ({
+            let (removed, removed_unproven) = res->Ok_0;
+            let gone = removed.on_time_sectors@.union(removed.early_sectors@);
+            // only live sectors terminate; whatever was removed becomes terminated and leaves faults, recoveries and unproven; the active power
+            // reported as removed (net of never-proven power) is exactly the loss of active power
+            &&& sector_numbers@.subset_of(old(self).sectors@.difference(old(self).terminated@))
+            &&& final(self).terminated@ =~= old(self).terminated@.union(gone)
+            &&& final(self).faults@ =~= old(self).faults@.difference(gone) && final(self).recoveries@ =~= old(self).recoveries@.difference(gone)
+            &&& final(self).unproven@ =~= old(self).unproven@.difference(gone)
+            &&& act_raw(*final(self)) - act_raw(*old(self)) == -removed.active_power.raw@ && act_qa(*final(self)) - act_qa(*old(self)) == -removed.active_power.qa@
+            &&& final(self).faulty_power.raw@ == old(self).faulty_power.raw@ - removed.faulty_power.raw@
+            &&& final(self).sectors == old(self).sectors
+            &&& bf_nested(*final(self)) && power_ok(*final(self))
+        }),
 //@ end
 
 } // verus!
